@@ -503,10 +503,10 @@ func ruleAztecHighLevel(c *Ctx) {
 		}
 		type exp struct{ sig, cond string }
 		want := map[string]string{
-			fmt.Sprintf("latchAndAppend(nb, %d, pair)", mv["mode_punct"]):  "true",
-			fmt.Sprintf("shiftAndAppend(nb, %d, pair)", mv["mode_punct"]):  fmt.Sprintf("s.mode != %d", mv["mode_punct"]),
+			fmt.Sprintf("latchAndAppend(nb, %d, pair)", mv["mode_punct"]):      "true",
+			fmt.Sprintf("shiftAndAppend(nb, %d, pair)", mv["mode_punct"]):      fmt.Sprintf("s.mode != %d", mv["mode_punct"]),
 			fmt.Sprintf("latchAndAppend(nb, %d, 16 - pair)", mv["mode_digit"]): "pair == 3 || pair == 4",
-			"addBinaryShiftChar(s, index)":                                 "s.bShiftByteCount > 0",
+			"addBinaryShiftChar(s, index)":                                     "s.bShiftByteCount > 0",
 		}
 		seen := map[string]bool{}
 		eachInstr(fn, func(b *ssa.BasicBlock, ins ssa.Instruction) {
